@@ -120,6 +120,13 @@ def compare(case, om, oi):
 
 
 def finding_key(case, om, oi, d):
+    if d.startswith("landing time impl="):
+        # a preferred descent far below the binary32 resolution of the altitudes: the absorption (finding D9) happens in
+        # the implementation's float evaluation of a cubic segment, which the model evaluates exactly
+        w = case.split(" ")
+        dd = frac_of_bits(int(w[3], 16))
+        if dd is not None and 0 < dd < Fraction(1, 1000):
+            return "D9 preferred-descent-absorbed"
     if d.startswith("D9:"):
         w = case.split(" ")
         dd = frac_of_bits(int(w[3], 16))
